@@ -4,21 +4,22 @@
 (* property's laws are invariants.  One action per wrapper entry point.      *)
 EXTENDS CborHelpersDom
 
-VARIABLES ph,    \* "idle" | "value" | "rejected" | "mutated" | "bytes"
+VARIABLES ph,    \* "idle" | "value" | "rejected" | "mutated" | "bytes" | "bytesM"
+          orig,  \* how the KeepRaw(s) in val were obtained: "decoded" | "owned" | "clone" | "owned_clone" | "from"
           ty,    \* type descriptor of the call in progress
           item,  \* the input item
           val,   \* abstract value held by the caller
           out    \* bytes written by the last encode
-vars == <<ph, ty, item, val, out>>
+vars == <<ph, orig, ty, item, val, out>>
 
 None == [c |-> "none"]
 
-Init == ph = "idle" /\ ty = None /\ item = CNull /\ val = <<>> /\ out = <<>>
+Init == ph = "idle" /\ orig = "decoded" /\ ty = None /\ item = CNull /\ val = <<>> /\ out = <<>>
 
 \* minicbor::decode::<W>(Ser(i))
 Decode(t, i) ==
     /\ ph = "idle"
-    /\ ty' = t /\ item' = i /\ out' = <<>>
+    /\ ty' = t /\ item' = i /\ out' = <<>> /\ orig' = "decoded"
     /\ IF Acc(t, i) THEN ph' = "value" /\ val' = Dec(t, i) ELSE ph' = "rejected" /\ val' = <<>>
 
 DecodeAs(c) == ByWrapper(c) # {} /\ \E t \in ByWrapper(c) : \E i \in Dom(t) : Decode(t, i)
@@ -47,27 +48,37 @@ Encode ==
     /\ ph \in {"value", "mutated"}
     /\ out' = Ser(Enc(ty, val))
     /\ ph' = IF ph = "value" THEN "bytes" ELSE "bytesM"
-    /\ UNCHANGED <<ty, item, val>>
+    /\ UNCHANGED <<ty, item, val, orig>>
+
+\* KeepRaw::to_owned(), Clone::clone(), KeepRaw::from(content) / serde: other ways of holding the same value
+ToOwned   == ph = "value" /\ CanMutate(ty) /\ orig = "decoded" /\ orig' = "owned" /\ UNCHANGED <<ph, ty, item, val, out>>
+CloneIt   == /\ ph = "value" /\ CanMutate(ty) /\ orig \in {"decoded", "owned"}
+             /\ orig' = (IF orig = "decoded" THEN "clone" ELSE "owned_clone") /\ UNCHANGED <<ph, ty, item, val, out>>
+FromInner == /\ ph = "value" /\ CanMutate(ty) /\ orig = "decoded"
+             /\ val' = Strip(ty, val) /\ orig' = "from" /\ UNCHANGED <<ph, ty, item, out>>
 
 \* KeepRaw::deref_mut().push(3)
 DerefMut ==
     /\ ph = "value" /\ CanMutate(ty)
     /\ val' = Mutate(ty, val)
     /\ ph' = "mutated"
-    /\ UNCHANGED <<ty, item, out>>
+    /\ UNCHANGED <<ty, item, out, orig>>
 
-Drop == ph \in {"rejected", "bytes", "bytesM"} /\ ph' = "idle" /\ ty' = None /\ item' = CNull /\ val' = <<>> /\ out' = <<>>
+Drop == ph \in {"rejected", "bytes", "bytesM"} /\ ph' = "idle" /\ orig' = "decoded" /\ ty' = None /\ item' = CNull /\ val' = <<>> /\ out' = <<>>
 
 Next == \/ DecAnyUInt \/ DecMaybeIndefArray \/ DecKeyValuePairs \/ DecNonEmptyKeyValuePairs \/ DecNullable
         \/ DecKeepRaw \/ DecAnyCbor \/ DecVec \/ DecSet \/ DecNonEmptySet \/ DecCborWrap \/ DecTagWrap
         \/ DecZeroOrOneArray \/ DecOrderPreservingProperties \/ DecEmptyMap \/ DecBytes \/ DecInt \/ DecByDatatype
-        \/ Encode \/ DerefMut \/ Drop
+        \/ Encode \/ ToOwned \/ CloneIt \/ FromInner \/ DerefMut \/ Drop
 
 \* ---- the property, as invariants
 DomainsOK == ph = "idle" => \A t \in TypeSet : \A i \in Dom(t) : ItemOK(i)
 ValueRoundTrip == ph = "value" => LawValueRoundTrip(ty, item) /\ LawEncWF(ty, item)
-PreservesBytes == (ph = "bytes" /\ Preserving(ty)) => out = Ser(item)
-MutationEncodesNewContent == ph = "bytesM" => out = Ser(Enc(ty.e, val.inner)) /\ LawMutation(ty, item)
+PreservesBytes == (ph = "bytes" /\ Preserving(ty) /\ orig # "from") => out = Ser(item)
+MutationEncodesNewContent == ph = "bytesM" => /\ (IsKR(ty) => out = Ser(Enc(ty.e, val.inner)))
+                                              /\ (Pushes(ty, Dec(ty, item)) => out # Ser(item))
+MutationLaw == (ph = "value" /\ orig = "decoded") => LawMutation(ty, item)
+
 \* the lh variant differs from the exact one only where a definite container has a wide length head
-LhVariantSound == (ph = "value" /\ "wide-len-head" \notin Exotic(item)) => EncX(ty, val, TRUE) = Enc(ty, val)
+LhVariantSound == (ph = "value" /\ orig # "from" /\ "wide-len-head" \notin Exotic(item)) => EncX(ty, val, TRUE) = Enc(ty, val)
 =============================================================================
